@@ -45,7 +45,13 @@ def _work(case):
             f = in_pkg[-1]
             what = "unexpected %s from %s:%d (%s): %s" % (type(e).__name__, os.path.basename(f.filename), f.lineno, f.name, str(e)[:200])
             return {"case": case, "result": {"crashed": what}, "oracle": [("crash", what)], "request": None, "nontrivial": False, "stats": {"impl_crash": 1}}
-        return {"case": case, "crash": "%s: %s\n%s" % (type(e).__name__, e, traceback.format_exc()[-1500:])}
+        # raised in harness code while handling what the implementation returned: on the unchanged tree this never happens (any such
+        # crash would have been fixed as a harness bug), so the implementation answered in a way the harness cannot even process -
+        # the case is reported as a failing input, with the harness frame named so that a harness bug is recognisable
+        f = frames[-1] if frames else None
+        what = "the implementation's answer could not be processed: %s at %s:%s: %s" % (
+            type(e).__name__, os.path.basename(f.filename) if f else "?", f.lineno if f else "?", str(e)[:200])
+        return {"case": case, "result": {"crashed": what}, "oracle": [("crash", what)], "request": None, "nontrivial": False, "stats": {"harness_side_crash": 1}}
     out = {"case": case, "result": res}
     try:
         out["oracle"] = list(_MOD.oracle(case, res))
@@ -80,19 +86,26 @@ def main():
     ap.add_argument("--replay")
     ap.add_argument("--jobs", type=int, default=int(os.environ.get("VERIF_JOBS", "0")))
     ap.add_argument("--no-build", action="store_true")
+    ap.add_argument("--no-evidence", action="store_true", help="complete run (build included) that leaves evidence/ untouched: for seeded trees")
     a = ap.parse_args()
     prop = a.prop.upper()
     seed = int(os.environ.get("VERIF_SEED", "0") or 0)
     t0 = time.time()
     try:
-        rc = run(prop, a.tier, seed, a.replay, a.jobs, a.no_build, t0)
+        rc = run(prop, a.tier, seed, a.replay, a.jobs, a.no_build, t0, a.no_evidence)
     except C.Infra as e:
         print("INFRA-FAILURE property=%s %s" % (prop, e))
+        sys.exit(2)
+    except Exception:
+        # a bug in the machinery itself is never a verdict about the code
+        import traceback
+        traceback.print_exc()
+        print("INFRA-FAILURE property=%s unexpected exception in the harness" % prop)
         sys.exit(2)
     sys.exit(rc)
 
 
-def run(prop, tier, seed, replay, jobs, no_build, t0):
+def run(prop, tier, seed, replay, jobs, no_build, t0, no_evidence=False):
     global _MOD
     sys.path.insert(0, C.REPO)  # the working tree of /repo is what runs
     mod = importlib.import_module("props." + prop.lower())
@@ -280,7 +293,7 @@ def run(prop, tier, seed, replay, jobs, no_build, t0):
         "wall_s": round(time.time() - t0, 2),
         "violations": 1 if rc else 0,
     }
-    if not replay and not no_build:   # evidence only from complete runs (build + audit included)
+    if not replay and not no_build and not no_evidence:   # evidence only from complete runs (build + audit included)
         C.write_json(os.path.join(C.EVIDENCE, prop + ".json"), ev)
     print("%s %s seed=%d: theorems %d/%d, cases %d (nontrivial %d), model requests %d, disagreements %d, oracle failures %d, %.1fs"
           % (prop, tier, seed, discharged, len(theorems), len(outs), len(nontriv), len(reqs), len(disagreements), len(failures), time.time() - t0))
